@@ -1,4 +1,5 @@
 import Anytree.Lemmas.ForestFault
+import Anytree.Lemmas.DelChildren
 import Anytree.Props.C01
 /-!
 # C03 — a refused or hook-vetoed structural change leaves the whole forest untouched
@@ -161,5 +162,53 @@ theorem C03_partial_setChildren_checks (c : Cfg) (fuel n : Nat) (xs : Option (Li
     obtain ⟨as, e, hx, hc⟩ := h
     subst hx
     simp [hc, M.throw]
+
+/-! ## the part that is true: children deletion and the delete phase of a children assignment -/
+
+/-- `del n.children` vetoed by `_pre_detach_children`, or by the *first* child's `_pre_detach`,
+leaves the forest exactly as it was — under every fault schedule (¬K2) -/
+theorem C03_partial_delChildren (c : Cfg) (fuel n : Nat) (s : Forest) (h : Inv s) (hfuel : s.n < fuel)
+    (i : Nat) (k : HookKind) (m : Nat)
+    (he : (exec c fuel (.delChildren n) s).res = .error (.hook i k m))
+    (hk : k = .preDetachChildren ∨ (k = .preDetach ∧ (s.children n).head? = some m)) :
+    (exec c fuel (.delChildren n) s).f = s :=
+  delChildren_veto_unchanged c fuel n s h hfuel i k m he hk
+
+/-- the same vetoes in the delete phase of `n.children = xs` -/
+theorem C03_partial_setChildren_delete_phase (c : Cfg) (fuel n : Nat) (as : List Arg) (s : Forest)
+    (h : Inv s) (hfuel : s.n < fuel) (hchk : checkChildren c.fl [] as = .ok ()) (i : Nat)
+    (k : HookKind) (m : Nat)
+    (he : (exec c fuel (.delChildren n) s).res = .error (.hook i k m))
+    (hk : k = .preDetachChildren ∨ (k = .preDetach ∧ (s.children n).head? = some m)) :
+    (exec c (fuel + 1) (.setChildren n (some as)) s).res = .error (.hook i k m) ∧
+    (exec c (fuel + 1) (.setChildren n (some as)) s).f = s :=
+  setChildren_delete_phase_veto_unchanged c fuel n as s h hfuel hchk i k m he hk
+
+/-- the errors a children deletion can raise: only the detach hooks of the children themselves
+(plus the two `*_detach_children` hooks); the forest stays consistent whatever happens -/
+theorem delete_loop_errors (c : Cfg) (fuel : Nat) (cs : List Nat) (w : World) (h : Inv w.f) :
+    (∀ e, (forM' cs (fun ch => setParent c fuel ch none) w).1 = .error e →
+      ∃ i k m, e = .hook i k m ∧ m ∈ cs ∧ (k = .preDetach ∨ k = .postDetach)) ∧
+    Inv (forM' cs (fun ch => setParent c fuel ch none) w).2.f :=
+  ⟨(detachLoop_errors c fuel cs w h).1, (detachLoop_errors c fuel cs w h).2.1⟩
+
+/-! ## finding K4: a persistently vetoed restore never terminates -/
+
+/-- with a `_pre_attach_children` hook that always raises (a read-only class), `n.children = xs`
+neither returns nor raises an ordinary exception, **for every amount of fuel**: the `except` branch
+calls the setter again, which is vetoed again (Python: `RecursionError`) -/
+theorem K4_persistent_preAttachChildren_diverges (c : Cfg)
+    (hφ : c.φ = fun _ k _ => k == .preAttachChildren) (fuel n : Nat) (xs : List Nat) (w : World)
+    (h : Inv w.f) :
+    (setChildrenNodes c fuel n xs w).1 ≠ .ok () ∧
+    ∀ e, e ≠ .diverged → (setChildrenNodes c fuel n xs w).1 ≠ .error e :=
+  persistent_preAttachChildren_never_terminates c hφ fuel n xs w h
+
+/-- … and what it leaves behind: `n` has lost its children (they are not re-attached) -/
+theorem K4_state (c : Cfg) (hφ : c.φ = fun _ k _ => k == .preAttachChildren) (fuel n : Nat)
+    (xs : List Nat) (w : World) (h : Inv w.f) :
+    (setChildrenNodes c (fuel + 1) n xs w).2.f = (Spec.delChildren w.f n).f :=
+  persistent_preAttachChildren_state c hφ fuel n xs w h
+
 
 end Anytree.Props.C03
